@@ -10,7 +10,9 @@ import subprocess
 explain = json.loads(subprocess.check_output([os.path.join(here, "bin", "orascheck"), "-explain"]))
 for pid, c in claimed.items():
     assert pid in explain, pid + " is claimed but not implemented in the checker"
-    c.setdefault("text", "Static decision of structural necessary conditions of the property, on every path of the analysed code; it does not observe executions. " + explain[pid])
+    ed = " Also decided, for every property (rule ED, checker/errdiscipline.go): inside the functions this property's rules are anchored in (and their closures) the error of every fallible call surfaces, or is dropped only after it was classified (errors.Is/As, sentinel comparison, predicate), handed to a sink that surfaces it, or belongs to an enumerated clean-up idiom."
+    c.setdefault("text", "Static decision of structural necessary conditions of the property, on every path of the analysed code; it does not observe executions. " + explain[pid] + ed)
+    c["technique"] = c["technique"] + "; error-flow discipline (ED) over every fallible call in the functions the rules are anchored in"
     c.setdefault("note", "Trusted base: Go type checker and go/ssa (x/tools v0.29.0), documented contracts of the standard library and pinned dependencies, and the frozen instance tables of the checker (re-validated against the source on every run). Clauses that quantify over runtime values are not decided (listed in the text and in DESIGN.md §6).")
 checks, na = [], []
 for p in props:
@@ -36,10 +38,10 @@ m = {
     "hooks": {"guard": "verif", "enable": "no hooks are needed: the checker analyses /repo's source and never builds or runs it with instrumentation",
               "baseline_off_cmd": "cd /repo && go test -vet=off -count=1 ./...", "source_commits": [], "add_only": True},
     "engines": [{"name": "orascheck", "path": "checker", "serves_properties": sorted(claimed.keys()),
-                 "kind_free_text": "repository-specific static analyser over go/packages + go/ssa (x/tools v0.29.0): path rules (cut-reachability, dominance), error-flow, lockset, effect inventories, loop progress, constant-set and regular-language comparison; never executes repository code"}],
+                 "kind_free_text": "repository-specific static analyser over go/packages + go/ssa (x/tools v0.29.0): path rules (cut-reachability, dominance), error-flow and module-wide error discipline, lockset, effect inventories, loop progress, constant-set and regular-language comparison; never executes repository code"}],
     "checks": checks,
     "not_applicable": na,
-    "notes": "All claims are at level 'other': each check decides structural necessary conditions of the property on every path of the analysed code (see DESIGN.md §0, §4); the behavioural remainder that quantifies over runtime values is listed per property in DESIGN.md §6 and in each evidence file. Thorough tier = same rules on 4 build variants (linux/amd64, windows/amd64, darwin/arm64, linux/386) plus mutant self-validation of the checker on scratch copies.",
+    "notes": "All claims are at level 'other': each check decides structural necessary conditions of the property on every path of the analysed code (see DESIGN.md §0, §4); the behavioural remainder that quantifies over runtime values is listed per property in DESIGN.md §6 and in each evidence file. Thorough tier = same rules on 4 build variants (linux/amd64, windows/amd64, darwin/arm64, linux/386) plus self-validation of the checker on scratch copies: source-level mutants of every rule instance must be reported, every committed seeded change (seeded/EXPECT.json) must still be caught and every committed behaviour-preserving patch (refactors*/, tiny*/) must stay silent.",
 }
 json.dump(m, open(os.path.join(here, "MANIFEST.json"), "w"), indent=1)
 print(f"{len(checks)} checks, {len(na)} not_applicable")
